@@ -104,6 +104,10 @@ func drawA07(t *rapid.T) a07Case {
 	switch rapid.IntRange(0, 9).Draw(t, "prelude") {
 	case 4: // collision: OPEN on both at once
 		c.Events = append(c.Events, a07Ev{Kind: aInbound}, a07Ev{Kind: aAccept}, a07Ev{Kind: aOpenBoth, Arg: rapid.IntRange(0, 1).Draw(t, "pboth")})
+		if rapid.Bool().Draw(t, "pboth_ka") {
+			// ... and the survivor's handshake is completed (the KEEPALIVE on the closed connection goes nowhere)
+			c.Events = append(c.Events, a07Ev{Kind: aKeepOut}, a07Ev{Kind: aKeepIn}, a07Ev{Kind: aWait, Arg: 0})
+		}
 	case 5: // collision: outbound first, then inbound
 		c.Events = append(c.Events, a07Ev{Kind: aAccept}, a07Ev{Kind: aInbound}, a07Ev{Kind: aOpenOut}, a07Ev{Kind: aOpenIn})
 	case 6: // collision: inbound in OpenConfirm, then the OPEN on the outbound connection
